@@ -407,6 +407,13 @@ func runC19(cfg config) {
 		addIdent("Patient", bad, "", "")
 		addIdent("Patient", "1", bad, "http://a")
 	}
+	// a service base that contains the name of the referenced type (as a path segment, as part of one, in the host)
+	for _, t := range []string{"Patient", "Group", "Person", "Observation"} {
+		for _, b := range []string{"http://fhir.my.com/tenant/" + t, "http://h/" + t, "https://example.org/" + t + "Portal/fhir", "http://" + strings.ToLower(t) + ".example.org/" + t + "/" + t, "http://h/Related" + t + "s", "http://h/x" + t + "/y"} {
+			addIdent(t, goodIDs(), "", b)
+			addIdent(t, goodIDs(), goodIDs(), b)
+		}
+	}
 	addIdent("Nope", "1", "", "")
 	addIdent("", "1", "", "")
 	addIdent("patient", "1", "", "")
@@ -464,6 +471,7 @@ func runC19(cfg config) {
 	}
 
 	// ---- CRef / CIs -------------------------------------------------------------------------------------------------
+	var versioned [][3]refDesc
 	sp := func(s string) *string { return &s }
 	var pool []refDesc
 	for _, t := range []string{"Patient", "MedicinalProductPackaged", "Parameters"} {
@@ -506,12 +514,29 @@ func runC19(cfg config) {
 		sink.add(fmt.Sprintf("CRef %s %s, ORef %s %s %s", d.coq(), orc.coq(), l, coqOIdent(func() (*verifhook.Ident, error) { return verifhook.IdentityOfRef(ref) }), fpReference(ref)),
 			"reference "+d.String(), "ref:"+d.kind, "ref:"+d.String())
 	}
+	// the same resource with version 1, without a version, with version 2, each as a strong and as a weak reference:
+	// `Is` is an equivalence, so the versioned and the unversioned ones are all different or all the same
+	{
+		f := fieldOf["Patient"]
+		vs := []refDesc{{kind: "strong", field: f, id: "1", ver: "1"}, {kind: "uri", u: "Patient/1/_history/1", typ: sp("Patient")}, {kind: "strong", field: f, id: "1"}, {kind: "uri", u: "Patient/1"},
+			{kind: "strong", field: f, id: "1", ver: "2"}, {kind: "uri", u: "Patient/1/_history/2"}, {kind: "uri", u: "http://a/b/Patient/1/_history/2"}, {kind: "uri", u: "http://a/b/Patient/1"}}
+		pool = append(pool, vs...)
+		for _, a := range vs {
+			for _, b := range vs {
+				for _, c := range vs {
+					versioned = append(versioned, [3]refDesc{a, b, c})
+				}
+			}
+		}
+	}
 	nIs := 1500 * scale
-	for i := 0; i < nIs; i++ {
+	for i := 0; i < nIs+len(versioned); i++ {
 		a := pick(r, pool)
 		b := pick(r, pool)
 		c := pick(r, pool)
-		if i%3 == 0 { // bias towards related triples: neighbours in the pool name the same resource
+		if i >= nIs {
+			a, b, c = versioned[i-nIs][0], versioned[i-nIs][1], versioned[i-nIs][2]
+		} else if i%3 == 0 { // bias towards related triples: neighbours in the pool name the same resource
 			j := r.intn(len(pool) - 3)
 			a, b, c = pool[j], pool[j+1+r.intn(2)], pool[j+r.intn(3)]
 		}
